@@ -107,6 +107,47 @@ CHECKS = {
              'every ordered factorisation of every length <= 24 (quick) / <= 360 (thorough), all 5x5x2 small trajectory splits, malformed nestings.',
         note=TB + 'jax.lax.scan and jax.checkpoint are modelled as the sequential loop / identity on values (gradients of nested vs flat scan are compared by probes only).',
         design='6/C14'),
+    'C17': dict(
+        technique='Lean 4 theorems over an arbitrary linearly ordered field about an executable model of jnp.interp (with its eps guard), '
+                  '_dot_interp, linear / safe extrapolation, pressure<->sigma<->hybrid regridding, get_surface_pressure, bilinear and '
+                  'nearest-neighbour weights, tied to the code by differential correspondence on adversarial queries (nodes, midpoints, +-1 ulp, ends, far outside)',
+        text='Machine-checked proof for node sets of any size (spacing above the 2^-104 guard of jnp.interp), arbitrary data and queries: interp returns '
+             'node values at nodes, is a convex combination of the two neighbours inside (hence bounded by them), constant outside, equal to the '
+             'reference piecewise-linear interpolant; the dot-product (TPU) variant equals the default variant for every query with >= 2 nodes '
+             '(the degenerate one-node case, where the two paths differ, is characterised by a witness); interpolation and linear extrapolation are exact on affine data; '
+             'safe extrapolation = linear within the allowed end cells and none beyond; sigma->pressure->sigma and hybrid->sigma are the identity / exact on affine columns; '
+             'get_surface_pressure returns the root of the piecewise-linear relative height; bilinear weights reproduce constants and are the identity between equal grids; '
+             'nearest neighbour of a node of the same grid is itself (haversine strictly positive elsewhere). Validation (increasing nodes) is characterised exactly.',
+        note=TB + 'sklearn BallTree is external (nearest is compared against a brute-force haversine argmin); NaN and denormal queries are outside the model (XLA flushes denormals).',
+        design='6/C17'),
+    'C16': dict(
+        technique='Lean 4 theorems over an arbitrary linearly ordered field (sin as any monotone g, instantiated with Real.sin on [-pi/2, pi/2]; Python % as a parameter) '
+                  'about an executable model of the conservative latitude / longitude / vertical weights and of the NaN bookkeeping, tied to the code by differential correspondence',
+        text='Machine-checked proof for coordinate vectors of any length and fields of any size: overlaps are >= 0, row sums equal the target cell size and column sums the source cell size for any two partitions '
+             'of the same interval, hence normalised weights are non-negative with rows summing to one, constants are reproduced, outputs stay within [min,max] of the overlapping inputs and '
+             'the area-weighted integral is conserved (latitude with g = sin, vertical sigma layers, hybrid->sigma, and the periodic longitude case via _align_phase_with under an explicit cell-width condition; '
+             'the precondition stated in the code is shown insufficient by a witness); the horizontal regridder conserves the double integral; NaN logic: skipna=True gives NaN iff all overlapping inputs are NaN, '
+             'skipna=False gives NaN iff the non-null weight fraction is not within rtol 1e-3 of 1 (sliver witness = the recorded known finding).',
+        note=TB + 'Known finding (committed in known_findings.json): skipna=False does not propagate NaN through overlaps below 0.1 % of a cell.',
+        design='6/C16'),
+    'C19': dict(
+        technique='Lean 4 theorems (structural induction over nested dictionaries with keys as character lists; list lemmas for pytrees and arrays) about an executable model of '
+                  'pytree_utils, the spectral up/down-sampling of coordinate_systems and the shape->dims inference of xarray_utils, tied to the code by differential correspondence and real xarray / NetCDF-attribute round trips',
+        text='Machine-checked proof for every nested dictionary whose keys avoid the separator (empty keys and empty branches allowed): sep.join/split are inverse, flatten_dict succeeds exactly on separator-free dictionaries and '
+             'unflatten(flatten d) == d in the sense of Python == (negative witnesses for the three repaired defects of the pre-fix code); replace_with_matching_or_default preserves structure; pack/unpack, stack/unstack, '
+             'split/concat, split_axis are mutually inverse for every list of leaf shapes; downsample(upsample x) = x and the up-sampled coefficients describe the same series; shape->dims inference returns the intended names whenever the shape table has no collision, '
+             'and the collisions are characterised (modal = nodal shape; layers = 1: the recorded known finding). Real round trips (asdict/coordinate_system_from_attrs, data_to_xarray/xarray_to_*) are bit-identical on random coordinate systems.',
+        note=TB + 'xarray / pandas / NetCDF attribute encoding are external (exercised, not modelled). Known finding: data_to_xarray rejects 3-D nodal data when layers == 1.',
+        design='6/C19'),
+    'C09': dict(
+        technique='Lean 4 theorems (finite-sum re-indexing over an arbitrary commutative ring) about executable models of RealSphericalHarmonics and FastSphericalHarmonics (padding, stacked layout, option record), '
+                  'tied to the code by differential correspondence of both implementations and the model on the same inputs',
+        text='Machine-checked proof for arbitrary sizes M, L, N, J and arbitrary padding: with iota the re-indexing between the two modal layouts, Fast.synth(iota x) = pad(Real.synth x) (row 1 and the padding of the input are ignored), '
+             'Fast.analysis(pad z) = iota(Real.analysis z) with row 1 and all padding exactly zero; the longitude derivative, mask, m/l values, clip, Laplacian and inverse Laplacian commute with iota; the stacked Fourier contraction equals the unstacked one; '
+             'every value of the option record (einsum argument order, precision hint, stacking) gives the same result in exact arithmetic; the two basis constructions of the code satisfy the structural relation for every Legendre table. '
+             'Sentinel: every public Grid method and the equation classes with the implementation switched and each option toggled (1e-12).',
+        note=TB + 'XLA einsum / precision hints are executed, not modelled: option independence is exact in the model, to rounding in the code.',
+        design='6/C09'),
 }
 
 NOT_YET = {
